@@ -105,6 +105,17 @@ pub fn build_response(id: u16, qs: &[Question], owner: &[Vec<u8>], tag: u32) -> 
     m
 }
 
+/// The tag of a response that came out of the code under test: the A record of its answer
+/// section if the parsed message has one, else the last four octets of its buffer.
+pub fn tag_of_response(resp: &hickory_proto::op::DnsResponse) -> u32 {
+    for rec in &resp.answers {
+        if let hickory_proto::rr::RData::A(a) = &rec.data {
+            return u32::from_be_bytes(a.0.octets());
+        }
+    }
+    tag_of(resp.as_buffer())
+}
+
 /// The tag of a message built by `build_response` (0 if it cannot carry one).
 pub fn tag_of(buf: &[u8]) -> u32 {
     if buf.len() < 12 + 4 {
